@@ -771,3 +771,297 @@ void h_buffer_dtor(void) {
   CHECK(g_alloc_calls + g_realloc_calls == 0, "nothing requested");
 }
 #endif
+
+/* =================================================================================================================== */
+#ifdef U_SAVE
+/* StringBuilder::save() / StringBuffer::save(): getString (= StringPool::get, a list loop) is taken by contract
+ * (rm_strings/rm_string_entry_points + strpool_get/pool_get: a pooled node with the same length and bytes, or null);
+ * resizeString / StringNode::resize / saveString(node) / StringPool::add(node) are the real routines.
+ * "A shrinking reallocate never fails" is the property's own assumption, encoded in the allocator stub. */
+static struct ResourceManager *g_rm;
+static Node *g_priv, *g_get_ret;
+static size_t g_size;
+static unsigned g_get_calls;
+static _Bool g_nul_at_lookup;
+Node *ResourceManager__getString_SizedRamString(struct ResourceManager *self, struct SizedRamString *str) {
+  CHECK(self == g_rm, "lookup in the document's pool");
+  CHECK(str->str_ == g_priv->data && str->size_ == g_size, "the lookup key is exactly the size_ characters built (embedded NUL included)");
+  g_nul_at_lookup = g_priv->data[g_size] == 0;
+  g_get_calls++;
+  return g_get_ret;
+}
+#define SAVE_PRELUDE(T) \
+  struct Allocator *a = verif_allocator(0); \
+  struct ResourceManager *rm = mk_rm(a); \
+  g_rm = rm; \
+  _Bool ov0 = rm->overflowed_; \
+  Node *head = in_bool() ? mk_real_node(0, 1) : 0; \
+  rm->stringPool_.strings_ = head; \
+  _Bool hit = in_bool(); \
+  ref_t refs0 = (ref_t)in_u32(); \
+  __CPROVER_assume(refs0 >= 1 && (uint64_t)refs0 < REF_MAX); /* caller obligation L-C06 */ \
+  g_get_ret = hit ? mk_real_node(0, refs0) : 0; \
+  struct T b; \
+  b.resources_ = rm; \
+  size_t len0; \
+  Node *n0 = mk_private_node(&len0); \
+  g_priv = n0; \
+  b.node_ = n0; \
+  size_t size0 = in_size(); \
+  __CPROVER_assume(size0 <= len0); /* INV */ \
+  b.size_ = size0; \
+  g_size = size0; \
+  size_t k = in_size(); \
+  __CPROVER_assume(k < size0 || size0 == 0); \
+  char ck = in_char(); \
+  if (size0) n0->data[k] = ck; \
+  int live0 = g_live_blocks;
+
+#define SAVE_COMMON_CHECKS \
+  CHECK(g_get_calls == 1 && g_nul_at_lookup, "one lookup, made on the NUL-terminated string"); \
+  CHECK(g_alloc_calls == 0 && g_dealloc_calls == 0, "save never allocates a second block nor releases one"); \
+  CHECK(g_live_blocks == live0, "C06: the number of live blocks is unchanged (no leak, no release)"); \
+  CHECK(rm->overflowed_ == ov0, "overflowed_ untouched"); \
+  if (hit) { \
+    CHECK(r == g_get_ret, "C06: an equal pooled string is returned instead of a second copy"); \
+    CHECK((uint64_t)r->references == (uint64_t)refs0 + 1, "C06: the shared node gains exactly one user"); \
+    CHECK(b.node_ == n0 && g_realloc_calls == 0, "C06: the private node stays with the builder for reuse (released by the destructor)"); \
+    CHECK(rm->stringPool_.strings_ == head, "the pool list is unchanged"); \
+  }
+
+void h_builder_save(void) {
+  SAVE_PRELUDE(StringBuilder)
+  Node *r = StringBuilder__save(&b);
+  COVER(hit); COVER(!hit && size0 < len0); COVER(!hit && size0 == len0); COVER(!hit && size0 == 0 && head != 0);
+  SAVE_COMMON_CHECKS
+  if (!hit) {
+    CHECK(g_realloc_calls == 1, "the block is shrunk to fit with one reallocate");
+    CHECK(r != 0, "shrinking cannot fail");
+#ifdef CANARY_BUILDER_SAVE
+    CHECK((uint64_t)r->length == size0 + (size0 == 3) && ledger_size(r, GONE) == spec_block_size(size0), "C19: the stored length is the string's size; block of size_+1+offsetof(data)");
+#else
+    CHECK((uint64_t)r->length == size0 && ledger_size(r, GONE) == spec_block_size(size0), "C19: the stored length is the string's size; block of size_+1+offsetof(data)");
+#endif
+    CHECK(r->data[size0] == 0 && (size0 == 0 || r->data[k] == ck), "characters kept, NUL at data[length]");
+    CHECK(r->references == 1, "one user");
+    CHECK(rm->stringPool_.strings_ == r && r->next == head, "the node is linked at the head of the pool");
+    CHECK(b.node_ == 0, "C06: ownership moves to the pool: the builder forgets the node (no double release)");
+  }
+}
+
+void h_buffer_save(void) {
+  SAVE_PRELUDE(StringBuffer)
+  Node *r = StringBuffer__save(&b);
+  COVER(hit); COVER(!hit && size0 < len0); COVER(!hit && size0 == len0); COVER(!hit && size0 == 0 && head != 0);
+  SAVE_COMMON_CHECKS
+  if (!hit) {
+    CHECK(g_realloc_calls == (size0 != len0 ? 1u : 0u), "the block is shrunk to fit iff it is larger than the string");
+    CHECK(r != 0, "shrinking cannot fail");
+#ifdef CANARY_BUFFER_SAVE
+    CHECK((uint64_t)r->length == size0 + (size0 == 3) && ledger_size(r, GONE) == spec_block_size(size0), "C19: the stored length is the string's size; block of size_+1+offsetof(data)");
+#else
+    CHECK((uint64_t)r->length == size0 && ledger_size(r, GONE) == spec_block_size(size0), "C19: the stored length is the string's size; block of size_+1+offsetof(data)");
+#endif
+    CHECK(r->data[size0] == 0 && (size0 == 0 || r->data[k] == ck), "characters kept, NUL at data[length]");
+    CHECK(r->references == 1, "one user");
+    CHECK(rm->stringPool_.strings_ == r && r->next == head, "the node is linked at the head of the pool");
+    CHECK(b.node_ == 0, "C06: ownership moves to the pool: the buffer forgets the node (no double release)");
+  }
+}
+#endif
+
+/* =================================================================================================================== */
+#ifdef U_SETSTR
+/* VariantData::setString(adapted, resources): the storage decision of C14.  saveString is taken by contract
+ * (rm_strings/rm_string_entry_points + strpool_add/pool_add_str: null, or a pooled node holding a private copy of the
+ * bytes at call time).  Precondition (the routine's disabled assert): type_ == Null, i.e. clear() was called first. */
+static struct ResourceManager *g_rm;
+static unsigned g_save_calls;
+static Node *g_ret;
+static char *g_arg_ptr;
+static size_t g_arg_len;
+Node *ResourceManager__saveString_SizedRamString(struct ResourceManager *self, struct SizedRamString str) {
+  CHECK(self == g_rm, "the copy is made in the document's own resources");
+  g_save_calls++; g_arg_ptr = str.str_; g_arg_len = str.size_;
+  return g_ret;
+}
+Node *ResourceManager__saveString_StaticStringAdapter(struct ResourceManager *self, struct StaticStringAdapter str) {
+  CHECK(0, "C14: a linked (static) string is never copied");
+  return 0;
+}
+void h_var_setstring_copied(void) {
+  struct ResourceManager *rm = malloc(sizeof *rm);
+  __CPROVER_assume(rm != 0);
+  g_rm = rm;
+  struct VariantData v;
+  v.type_ = 0;
+  v.next_ = (__typeof__(v.next_))in_u32();
+  __typeof__(v.next_) next0 = v.next_;
+  char buf[2] = {'x', 0};
+  _Bool null_str = in_bool();
+  struct SizedRamString s;
+  s.str_ = null_str ? (char *)0 : &buf[0];
+  s.size_ = in_size();
+  Node *some = mk_real_node(0, 1);
+  g_ret = in_bool() ? some : 0;
+  _Bool ok = VariantData__setString_SizedRamString(&v, s, rm);
+  COVER(null_str); COVER(!null_str && ok); COVER(!null_str && !ok);
+  CHECK(v.next_ == next0, "the slot's link is not touched");
+  if (null_str) {
+    CHECK(!ok && v.type_ == 0 && g_save_calls == 0, "C14: a null string is refused: false, value stays null, nothing stored");
+  } else {
+    CHECK(g_save_calls == 1 && g_arg_ptr == &buf[0] && g_arg_len == s.size_, "C14: a non-linked string is copied, once, with its full size");
+    if (g_ret) {
+#ifdef CANARY_SETSTR_COPIED
+      CHECK(ok && v.type_ == 0x04 && (Node *)v.content_.asOwnedString == g_ret, "the variant owns the pooled copy (type OwnedString), not the caller's pointer");
+#else
+      CHECK(ok && v.type_ == 0x05 && (Node *)v.content_.asOwnedString == g_ret, "the variant owns the pooled copy (type OwnedString), not the caller's pointer");
+#endif
+    } else {
+      CHECK(!ok && v.type_ == 0, "C05: when the copy cannot be made the result is false and the value stays null");
+    }
+  }
+}
+void h_var_setstring_linked(void) {
+  struct ResourceManager *rm = malloc(sizeof *rm);
+  __CPROVER_assume(rm != 0);
+  g_rm = rm;
+  struct VariantData v;
+  v.type_ = 0;
+  v.next_ = (__typeof__(v.next_))in_u32();
+  __typeof__(v.next_) next0 = v.next_;
+  char buf[2] = {'x', 0};
+  _Bool null_str = in_bool();
+  struct StaticStringAdapter s;
+  s._b_ZeroTerminatedRamString.str_ = null_str ? (char *)0 : &buf[0];
+  _Bool ok = VariantData__setString_StaticStringAdapter__StaticStringAdapter_ResourceManager_p(&v, s, rm);
+  COVER(null_str); COVER(!null_str);
+  CHECK(v.next_ == next0, "the slot's link is not touched");
+  CHECK(g_save_calls == 0 && g_alloc_calls + g_realloc_calls + g_dealloc_calls == 0, "C14: a linked string costs no allocation and no copy");
+  if (null_str) {
+    CHECK(!ok && v.type_ == 0, "C14: a null string is refused: false, value stays null");
+  } else {
+#ifdef CANARY_SETSTR_LINKED
+    CHECK(ok && v.type_ == 0x05 && (char *)v.content_.asLinkedString == &buf[0], "C14: the pointer itself is kept (type LinkedString)");
+#else
+    CHECK(ok && v.type_ == 0x04 && (char *)v.content_.asLinkedString == &buf[0], "C14: the pointer itself is kept (type LinkedString)");
+#endif
+  }
+}
+#endif
+
+/* =================================================================================================================== */
+#ifdef U_SETSTR_E2E
+/* C14 end to end on the real code (no stub but the allocator): store a JsonString (the sized kind whose adapter decides
+ * linked/copied at run time) with VariantData::setString, read it back with VariantData::asString.  Oracle = the property:
+ * "same observable behaviour ... embedded NUL preserved for sized kinds ... a copied string is independent of its source".
+ * Bounded: strings of 0..3 symbolic bytes (embedded NUL allowed), followed by a NUL; empty pool. */
+void h_setstring_jsonstring(void) {
+  struct Allocator *a = verif_allocator(0);
+  struct ResourceManager *rm = malloc(sizeof *rm);
+  __CPROVER_assume(rm != 0);
+  rm->allocator_ = a;
+  rm->overflowed_ = 0;
+  rm->stringPool_.strings_ = 0;
+  g_expected_allocator = a;
+  char src[4];
+  src[0] = in_char(); src[1] = in_char(); src[2] = in_char(); src[3] = 0;
+  char c0 = src[0], c1 = src[1], c2 = src[2];
+  size_t size = in_size();
+  __CPROVER_assume(size <= 3);
+  struct JsonStringAdapter s;
+  s._b_SizedRamString.str_ = src;
+  s._b_SizedRamString.size_ = size;
+#if SCEN_LINKED
+  s.linked_ = 1;
+#else
+  s.linked_ = 0;
+#endif
+  struct VariantData v;
+  v.type_ = 0;
+  v.next_ = 0;
+  _Bool ok = VariantData__setString_JsonStringAdapter__JsonStringAdapter_ResourceManager_p(&v, s, rm);
+  COVER(ok && size == 3); COVER(ok && size == 0); COVER(ok && size == 2 && c0 == 0);
+#if SCEN_LINKED
+  CHECK(ok && g_alloc_calls == 0, "C14: a linked string is kept by address: no allocation, cannot fail");
+#else
+  COVER(!ok);
+  CHECK(g_alloc_calls == 1, "C14: a copied string costs exactly one block (empty pool)");
+  if (!ok) CHECK(v.type_ == 0 && rm->overflowed_ && g_live_blocks == 0, "C05: failed copy => false, value stays null, overflowed() true");
+#endif
+  if (ok) {
+    struct JsonString js = VariantData__asString(&v);
+#ifdef CANARY_SETSTR_JS
+    CHECK(js.size_ == size + (size == 1 && c1 == 0), "C14: the stored string has the size of the source (embedded NUL preserved for sized kinds)");
+#else
+    CHECK(js.size_ == size, "C14: the stored string has the size of the source (embedded NUL preserved for sized kinds)");
+#endif
+    if (js.size_ == size) {
+      CHECK(size < 1 || js.data_[0] == c0, "C14: byte 0 equals the source");
+      CHECK(size < 2 || js.data_[1] == c1, "C14: byte 1 equals the source");
+      CHECK(size < 3 || js.data_[2] == c2, "C14: byte 2 equals the source");
+    }
+#if SCEN_LINKED
+    CHECK(js.data_ == src, "C14: linked => the pointer itself is kept");
+#else
+    CHECK(js.data_ != src && g_live_blocks == 1, "C14: copied => a private block");
+    src[0] = (char)(c0 ^ 1); src[1] = (char)(c1 ^ 1); src[2] = (char)(c2 ^ 1);
+    struct JsonString js2 = VariantData__asString(&v);
+    CHECK(js2.size_ == size && (size < 1 || js2.data_[0] == c0) && (size < 2 || js2.data_[1] == c1) && (size < 3 || js2.data_[2] == c2),
+          "C14: a copied string is independent of its source once the call has returned");
+    CHECK(js2.data_[size] == 0, "the copy is NUL-terminated");
+#endif
+  }
+}
+#endif
+
+/* =================================================================================================================== */
+#ifdef U_POOL_E2E
+/* C06/C14 end to end on the real StringPool (real get / stringEquals / create / stringGetChars / dereference; only the
+ * allocator is a stub): two strings are added, then their users disappear one after the other.
+ * Bounded: two strings of 0..2 symbolic bytes (embedded NUL allowed), pool initially empty. */
+void h_pool_share_release(void) {
+  struct StringPool sp;
+  sp.strings_ = 0;
+  struct Allocator *a = verif_allocator(0);
+  g_expected_allocator = a;
+  char A[2], B[2];
+  A[0] = in_char(); A[1] = in_char(); B[0] = in_char(); B[1] = in_char();
+  size_t nA = in_size(), nB = in_size();
+  __CPROVER_assume(nA <= 2 && nB <= 2);
+  _Bool equal = nA == nB && (nA < 1 || A[0] == B[0]) && (nA < 2 || A[1] == B[1]);
+  struct SizedRamString sA, sB;
+  sA.str_ = A; sA.size_ = nA; sB.str_ = B; sB.size_ = nB;
+  Node *r1 = StringPool__add_SizedRamString(&sp, sA, a);
+  if (!r1) { CHECK(sp.strings_ == 0 && g_live_blocks == 0, "C05: failed first add leaves the pool empty"); return; }
+  Node *r2 = StringPool__add_SizedRamString(&sp, sB, a);
+  COVER(equal && nA == 2); COVER(!equal && r2 != 0 && nA == nB); COVER(!equal && r2 == 0); COVER(equal && nA == 0);
+  if (equal) {
+    CHECK(r2 == r1 && g_alloc_calls == 1 && g_live_blocks == 1, "C06: equal copied strings are stored once (no second allocation, cannot fail)");
+#ifdef CANARY_POOL_E2E
+    CHECK(r1->references == 2 + (nA == 1), "C06: the shared node counts its two users");
+#else
+    CHECK(r1->references == 2, "C06: the shared node counts its two users");
+#endif
+    StringPool__dereference(&sp, r1->data, a);
+    CHECK(g_live_blocks == 1 && g_dealloc_calls == 0 && sp.strings_ == r1 && r1->references == 1, "C14: removing one user leaves the other intact");
+    CHECK((size_t)r1->length == nB && (nB < 1 || r1->data[0] == B[0]) && (nB < 2 || r1->data[1] == B[1]) && r1->data[nB] == 0, "the remaining user still sees its string");
+    StringPool__dereference(&sp, r2->data, a);
+    CHECK(g_live_blocks == 0 && g_dealloc_calls == 1 && sp.strings_ == 0, "C06: the block is released when the last user disappears, exactly once");
+  } else {
+    CHECK(g_alloc_calls == 2, "different strings need a block each");
+    if (r2) {
+      CHECK(r2 != r1 && g_live_blocks == 2 && r1->references == 1 && r2->references == 1, "two nodes, one user each");
+      CHECK((size_t)r2->length == nB && (nB < 1 || r2->data[0] == B[0]) && (nB < 2 || r2->data[1] == B[1]) && r2->data[nB] == 0, "second copy equals its source");
+      StringPool__dereference(&sp, r1->data, a);
+      CHECK(g_live_blocks == 1 && g_dealloc_calls == 1 && sp.strings_ == r2 && r2->next == 0, "releasing one string leaves the other pooled");
+      CHECK((size_t)r2->length == nB && (nB < 1 || r2->data[0] == B[0]) && (nB < 2 || r2->data[1] == B[1]), "C14: and intact");
+      StringPool__clear(&sp, a);
+      CHECK(g_live_blocks == 0 && sp.strings_ == 0 && g_dealloc_calls == 2, "C06: clear releases the rest exactly once");
+    } else {
+      CHECK(sp.strings_ == r1 && r1->next == 0 && r1->references == 1 && g_live_blocks == 1, "C05: failed second add leaves the first string intact");
+      CHECK((size_t)r1->length == nA && (nA < 1 || r1->data[0] == A[0]) && (nA < 2 || r1->data[1] == A[1]), "C05: and its bytes unchanged");
+    }
+  }
+}
+#endif
